@@ -337,7 +337,9 @@ func (t *Transport) handleLinkLost(addrStr string, lnk *Link) {
 	}
 	t.mtx.Unlock()
 
-	if t.handler != nil && rel {
+	// always report the loss: a link that was replaced at its address by
+	// a link to another peer is still known to the handler.
+	if t.handler != nil {
 		t.handler.HandleLinkLost(lnk)
 	}
 }
